@@ -65,7 +65,10 @@ Fixpoint line_rest (s : str) : str :=
   | x :: r => if N.eqb x 10 then s else line_rest r
   end.
 Definition alt_line (s : str) : option str :=
-  match s with 45 :: 45 :: r => Some (line_rest r) | _ => None end.
+  match s with
+  | a :: b :: r => if N.eqb a 45 && N.eqb b 45 then Some (line_rest r) else None
+  | _ => None
+  end.
 
 (* /\*.*?\*/ with DOTALL: the first "*/" after the opening *)
 Fixpoint until_star_slash (s : str) : option str :=
@@ -78,7 +81,10 @@ Fixpoint until_star_slash (s : str) : option str :=
       end
   end.
 Definition alt_block (s : str) : option str :=
-  match s with 47 :: 42 :: r => until_star_slash r | _ => None end.
+  match s with
+  | a :: b :: r => if N.eqb a 47 && N.eqb b 42 then until_star_slash r else None
+  | _ => None
+  end.
 
 Definition quoted_alts : list (str -> option str) :=
   [alt_quote 39; alt_quote 34; alt_delim 96 96; alt_delim 91 93; alt_line; alt_block].
